@@ -185,6 +185,9 @@ impl CaseCtx {
             _ => None,
         })
     }
+    pub fn fault_finish_panic(&self, actor: ActorId) -> bool {
+        self.case.faults.iter().any(|f| matches!(f, Fault::FinishPanic { actor: a } if *a == actor))
+    }
     pub fn fault_stop_panic(&self, actor: ActorId) -> bool {
         self.case.faults.iter().any(|f| matches!(f, Fault::StopPanic { actor: a } if *a == actor))
     }
